@@ -219,8 +219,8 @@ def regex_full_to_re(pattern_text, flags=re.U, approx=False):
     tree = P.parse(pattern_text, flags)
     items = list(tree)
     if not (items and items[0][0] is K.AT and items[0][1] is K.AT_BEGINNING
-            and items[-1][0] is K.AT and items[-1][1] is K.AT_END):
-        raise Unsupported('expected a ^...$ pattern')
+            and items[-1][0] is K.AT and items[-1][1] in (K.AT_END, K.AT_END_STRING)):
+        raise Unsupported('expected a ^...$ or ^...\\Z pattern')
     na, r = tr(items[1:-1], top=True)
     if na is not None:
         raise Unsupported('look-behind')
@@ -466,6 +466,7 @@ def gen_colors():
     import css_parser  # noqa: F401
     from css_parser.css.value import ColorValue
     from css_parser import serialize, prodparser
+    from css_parser.css import value as value_mod
     rows = []
     for n, (r, g, b, a) in sorted(ColorValue.COLORS.items()):
         rows.append((n, int(r), int(g), int(b), int(round(a * 1000))))
@@ -489,6 +490,10 @@ def gen_colors():
     out.append('def zeroUnits : List Text := [%s]' % ', '.join(lean_text(u) for u in units))
     out.append('/-- full-match pattern of a hex colour HASH value -/')
     out.append('def hexColorRe : Re := %s' % hx_s)
+    strict = list(P.parse(prodparser.PreDef.reHexcolor.pattern))[-1][1] is K.AT_END_STRING and \
+        list(P.parse(value_mod.reHexcolor.pattern))[-1][1] is K.AT_END_STRING
+    out.append('/-- both copies of the pattern end in \\\\Z (the end of the text), not in $ (which also matches before a final newline) -/')
+    out.append('def hexColorStrictEnd : Bool := %s' % ('true' if strict else 'false'))
     out.append('end CssVerif.Gen')
     return '\n'.join(out) + '\n'
 
